@@ -52,6 +52,7 @@ def binary(build):
         "tsan": os.path.join(WORK, "target-tsan", TARGET, "rel", "vh"),
         "cli": os.path.join(WORK, "target-repo", "release", "sudachi"),
         "py": os.path.join(WORK, "target-repo", "release", "libsudachipy.so"),
+        "clidbg": os.path.join(WORK, "target-repo", "debug", "sudachi"),
     }.get(build)
 
 
@@ -84,6 +85,10 @@ def _ensure(build):
     if build == "cli":
         return _run(["cargo", "build", "--offline", "--release", "-p", "sudachi-cli",
                      "--target-dir", os.path.join(WORK, "target-repo")], REPO, _env(), "build-cli.log")
+    if build == "clidbg":
+        # the command-line tool with debug assertions and overflow checks (cargo's dev profile)
+        return _run(["cargo", "build", "--offline", "-p", "sudachi-cli",
+                     "--target-dir", os.path.join(WORK, "target-repo")], REPO, _env(), "build-clidbg.log")
     if build == "py":
         ok, why = _run(["cargo", "build", "--offline", "--release", "-p", "sudachipy",
                         "--target-dir", os.path.join(WORK, "target-repo")], REPO,
@@ -109,7 +114,7 @@ def command(st, prop, tier, seed, shard, nshards, out):
         env = _env({"MIRIFLAGS": flags, "VH_REPO": REPO})
         cmd = ["cargo", "+nightly", "miri", "run", "--offline", "--target-dir", os.path.join(WORK, "target-miri"), "--"] + args
         return cmd, env | {"VH_CWD": HARNESS}
-    env = _env({"VH_REPO": REPO, "VH_SCRATCH": scratch, "VH_CLI": binary("cli"), "VH_PYPKG": os.path.join(WORK, "pypkg"),
+    env = _env({"VH_REPO": REPO, "VH_SCRATCH": scratch, "VH_CLI": binary("clidbg" if st.get("cli_debug") else "cli"), "VH_PYPKG": os.path.join(WORK, "pypkg"),
                 "VH_PYDRIVER": os.path.join(VERIF, "py", "drive.py")})
     if build == "asan":
         env["ASAN_OPTIONS"] = "detect_leaks=0:halt_on_error=1:abort_on_error=0:exitcode=98"
@@ -136,7 +141,7 @@ def is_sanitizer_report(st, rc, tail):
 
 def setup():
     ok_all = True
-    for b in ["mon", "rel", "tsan", "asan", "cli", "py"]:
+    for b in ["mon", "rel", "tsan", "asan", "cli", "clidbg", "py"]:
         ok, why = ensure(b)
         print("setup: build %s: %s" % (b, "ok" if ok else "FAILED\n" + why))
         ok_all = ok_all and ok
